@@ -324,9 +324,14 @@ def check_constructor(chk, repo):
            what='the constructor sorts the (T, Cp) pairs by temperature')
     if sort_stmt is None:
         return
-    S = sym.Summarizer(record_calls=False)
-    st = sym.State()
-    S.stmt(sort_stmt, st)
+    # the stored columns, from the path summaries (the sort and the split
+    # into columns may be one statement or several)
+    paths = sym.summarize(f)
+    finals = {}
+    for p in paths:
+        for e in p.stores():
+            if e[1][0] == 'attr' and e[1][1] == SELF:
+                finals.setdefault(e[1][2], set()).add(e[2])
     alts = []
     for text in ('list(zip(*sorted(zip({t}, {c}), key=lambda q: q[0])))',
                  'list(zip(*sorted(zip({t}, {c}))))',
@@ -335,8 +340,12 @@ def check_constructor(chk, repo):
                  'tuple(zip(*sorted(zip({t}, {c}), key=lambda q: q[0])))',
                  'tuple(zip(*sorted(zip({t}, {c}))))'):
         alts.append(sym.expr_key(text.format(t=tsp, c=cpp)))
-    ts_val = sym.key(st.heap.get((SELF, 'Ts'), ('const', None)))
-    cp_val = sym.key(st.heap.get((SELF, 'ND_Cps'), ('const', None)))
+
+    def sole(attr):
+        vs = finals.get(attr, set())
+        return next(iter(vs)) if len(vs) == 1 else ('const', None)
+    ts_val = sole('Ts')
+    cp_val = sole('ND_Cps')
     ok = any(ts_val == ('sub', a, ('num', Fraction(0)))
              and cp_val == ('sub', a, ('num', Fraction(1))) for a in alts)
     chk.ob('R05.2', ok, RAW, sort_stmt, key='sorted-zip-by-T',
@@ -354,12 +363,6 @@ def check_constructor(chk, repo):
            what='after the sorted copy is stored the unsorted arguments are '
                 'not read again', found=', '.join(stale))
     # endpoints
-    paths = sym.summarize(f)
-    finals = {}
-    for p in paths:
-        for e in p.stores():
-            if e[1][0] == 'attr' and e[1][1] == SELF:
-                finals.setdefault(e[1][2], set()).add(e[2])
     sortedTs = ts_val
     sortedCps = cp_val
     want = {'min_T': ('sub', sortedTs, ('num', Fraction(0))),
